@@ -3,6 +3,7 @@
   `groupKeys`/`groupMembers` model pandas' group-by (ascending keys, member order preserved); labels come from
   `blockSplit` (C08).
 -/
+import VerdeModel.Gen.Blocks
 import VerdeModel.Lemmas.Group
 namespace Verde.C09
 open Verde
@@ -106,5 +107,46 @@ example : groupKeys 4 [3, 0, 3, 0, 0] = [0, 3] ∧ groupMembers [3, 0, 3, 0, 0] 
 example : blockReduce [[1/2, 3/2, 5/2, 7/2], [1/2, 1/2, 3/2, 3/2]] [[1, 2, 3, 4]] none
     ⟨some [0, 4, 0, 2], none, some [1, 2], .spacing⟩ ⟨some .mean, false, true⟩
     = .ok ([[1, 3], [1/2, 3/2]], [[3/2, 7/2]]) := by decide +kernel
+
+/-! ### Bridge: `BlockReduce.filter` (after `block_split`) regenerated from source -/
+
+theorem mapIdx_map' {α β γ : Type} (l : List α) (g : α → β) (f : Nat → β → γ) :
+    (l.map g).mapIdx f = l.mapIdx (fun i c => f i (g c)) := by
+  apply List.ext_getElem? ; intro i; simp [List.getElem?_mapIdx]; rfl
+
+theorem mapIdx_noindex {α β : Type} (l : List α) (g : α → β) : l.mapIdx (fun _ c => g c) = l.map g := by
+  apply List.ext_getElem? ; intro i; simp [List.getElem?_mapIdx]
+
+theorem gen_block_coordinates_eq_model (r : ReduceSpec) (coords : List (List Rat)) (centres : List (Rat × Rat)) (labels keys : List Nat) :
+    Gen.blockCoordinates r coords centres labels keys =
+      (if r.dropCoords then coords.take 2 else coords).mapIdx fun i c =>
+        if r.centre && i < 2 then keys.map fun k => (if i = 0 then (centres.getD k (0, 0)).1 else (centres.getD k (0, 0)).2)
+        else keys.map fun k => r.fn (groupMembers labels c k) := by
+  unfold Gen.blockCoordinates
+  simp only [groupAgg]
+  by_cases hc : r.centre = true
+  · simp only [hc, if_true, Bool.true_and, mapIdx_map', decide_eq_true_eq]
+  · have : r.centre = false := by simpa using hc
+    simp only [this, Bool.false_eq_true, if_false, Bool.false_and]
+    exact (mapIdx_noindex _ _).symm
+
+/-- **Bridge.**  `BlockReduce.filter` and `_block_coordinates` after `block_split` — the pinned translation regenerated on every run (withheld
+    as soon as a statement of either method changes) — are the model's `blockReduce`: per occupied block in ascending order, the reduction of
+    that block's members (component i with weight component i when weights are given; coordinates always unweighted; the first two coordinates
+    replaced by the block's centre when `center_coordinates`; extra coordinates dropped when `drop_coords`). -/
+theorem gen_block_reduce_eq_model (coords data : List (List Rat)) (weights : Option (List (List Rat))) (b : BlockSpec) (r : ReduceSpec) :
+    blockReduce coords data weights b r = (do
+      let (centres, labels) ← blockSplit (coords.getD 0 []) (coords.getD 1 []) b
+      Gen.blockReduceFilter r centres labels coords data weights) := by
+  unfold blockReduce Gen.blockReduceFilter
+  simp only [bind, Except.bind]
+  cases hs : blockSplit (coords.getD 0 []) (coords.getD 1 []) b with
+  | error e => rfl
+  | ok v =>
+    obtain ⟨centres, labels⟩ := v
+    simp only [gen_block_coordinates_eq_model]
+    cases weights with
+    | none => simp [pure, Except.pure, groupAgg]
+    | some ws => simp [pure, Except.pure, groupAggW]
 
 end Verde.C09
